@@ -8,11 +8,11 @@ C12 driver ops (one output line per input line):
   pt <z|n> { <0|2> <ts-hex> }+
       ParseTransport applied in sequence to the zero value (z) or to newSession's transport (n)
   run <tcp|ws|wsp> <wsPath-hex> sdp <n> { <ok> <nm> { <v|a|o> <ctrl-hex> } } st <n> { <path-hex> <sdpId> <mc> [ip-hex portBase src-hex ttl] }
-      un <n> { <ctrl-hex> <norm-hex|!> } in <n> { R <METHOD> <cseq> <path> <setupPath> <transport> <ctype> <range> <body> <udpok> | H }
+      un <n> { <ctrl-hex> <norm-hex|!> } in <n> { R <METHOD> <cseq> <path> <setupPath> <transport> <ctype> <range> <body> <udpok> | H | F <channel> <rtpHeaderParses> }
       the model's prediction: per input `responses;consumers published closed`, joined by " | ",
       then " || ch=<channels> role=<role> paused=<b>" of the final state
   wspdec <hex>   wsp.DecodeStringRequest on the text
-  judge <rtsp|wsp> { <hangup> <METHOD> <transport-hex> <nresp> <code> <cseqOk> <sidOk> <consumers> <published> <closed> <media> }*
+  judge <rtsp|wsp> { <hangup> <METHOD> <transport-hex> <nresp> <code> <cseqOk> <sidOk> <consumers> <published> <closed> <media> <frame> }*
       the specification's verdict on an observed dialogue
 -/
 namespace IpcHub.Drv.C12
@@ -133,6 +133,10 @@ def Tables.env (tb : Tables) (udpOk : Bool) : Env :=
 def pInput (tb : Tables) : P Input := do
   let t ← tok
   if t == "H" then pure .hangup
+  else if t == "F" then
+    let ch ← pNat
+    let ok ← pBool
+    pure (.frame (ch : Int) ok)
   else if t == "R" then
     let m ← tok
     let cseq ← pStr
@@ -233,8 +237,9 @@ def pObs : P Obs := do
   let pub ← pBool
   let cl ← pBool
   let media ← pBool
+  let frame ← pBool
   pure { hangup := h, method := methodOfToken m, ask := specSetupAsk tr, nresp := n, code := code, cseqOk := c,
-         sidOk := sid, consumers := cons, published := pub, closed := cl, media := media }
+         sidOk := sid, consumers := cons, published := pub, closed := cl, media := media, frame := frame }
 
 partial def pMany {α} (p : P α) : P (List α) := fun s =>
   match s with
